@@ -329,6 +329,29 @@ impl<'a> Hist<'a> {
                         }
                     }
                 }
+                // the stake commitment: the root of the tree built here, independently, from the stake set (key =
+                // hash of the encoded transaction hash, value = the encoded stake document) is the header's stakes_hash,
+                // and every stake is provably in it
+                {
+                    let stakes = sealed.raw_stakes();
+                    let db = novasmt::Database::new(Cas::default());
+                    let mut t = db.get_tree([0u8; 32]).unwrap();
+                    let mut n = 0usize;
+                    for (k, v) in stakes.iter() {
+                        t = t.with(tmelcrypt::hash_single(&stdcode::serialize(k).unwrap()).0, &stdcode::serialize(v).unwrap());
+                        n += 1;
+                    }
+                    let mut ok = t.root_hash() == hdr.stakes_hash.0;
+                    let committed = stakes.pre_tip911();
+                    for (k, v) in stakes.iter().take(8) {
+                        let key = tmelcrypt::hash_single(&stdcode::serialize(k).unwrap()).0;
+                        let (val, proof) = committed.get_with_proof(key);
+                        if val.as_ref() != stdcode::serialize(v).unwrap().as_slice() || !proof.verify(hdr.stakes_hash.0, key, &stdcode::serialize(v).unwrap()) {
+                            ok = false;
+                        }
+                    }
+                    self.out.fact("C07", "stake-commitment-is-the-stake-set", ok, &format!("stakes={}", n));
+                }
                 self.out.fact("C07", "state-entries-provable", prov_ok, "");
                 self.w.sealed.insert(dst.clone(), sealed);
                 self.bump(if action.is_some() { "op:seal-action" } else { "op:seal-none" });
@@ -797,6 +820,13 @@ pub fn rand_fab(r: &mut Rng, wallet: &mut Wallet, em: &Emphasis) -> FabSpec {
     };
     // the block built on a state at height k*STAKE_EPOCH - 1 is the first block of epoch k
     let height = if r.chance(em.epoch_edges, 8) { *r.pick(&[199_998u64, 199_999, 199_999, 200_000, 399_999, 399_999, 1_999_999, 599_999]) } else { height };
+    // … and, for the staking-centred stream, the legacy cut-offs of stake registration (500000) and of the stake lock
+    // (900000) on the two networks that have them
+    let (network, height) = if em.epoch_edges > 0 && r.chance(1, 4) {
+        (*r.pick(&[NetID::Mainnet, NetID::Testnet]), *r.pick(&[499_998u64, 499_999, 500_000, 899_998, 899_998, 899_999, 899_999, 900_000]))
+    } else {
+        (network, height)
+    };
     let t906 = tip906_active(network, height);
     let _ = t906;
     let mut coins = vec![];
@@ -837,7 +867,7 @@ pub fn rand_fab(r: &mut Rng, wallet: &mut Wallet, em: &Emphasis) -> FabSpec {
         let start = epoch.saturating_sub(r.below(2));
         stakes.push((
             TxHash(tmelcrypt::hash_keyed(b"fabstake", [i as u8])),
-            StakeDoc { pubkey: wallet.keys[k].pk, e_start: start, e_post_end: start + r.below(3), syms_staked: CoinValue(1 + r.below(1000) as u128) },
+            StakeDoc { pubkey: wallet.keys[k].pk, e_start: start, e_post_end: start + r.below(3), syms_staked: CoinValue(match r.below(8) { 0 => 0, 1 => 1 << 100, _ => 1 + r.below(1000) as u128 }) },
         ));
     }
     let mut history = vec![];
@@ -854,7 +884,7 @@ pub fn rand_fab(r: &mut Rng, wallet: &mut Wallet, em: &Emphasis) -> FabSpec {
         network,
         height,
         fee_pool: *r.pick(&[0u128, 1 << 16, 6553600000000, 1 << 100, (1 << 120) - 5, (1 << 120) + 12345, 1 << 123]),
-        fee_multiplier: *r.pick(&[0u128, 1, 100, 65536, 1_000_000, 1 << 40]),
+        fee_multiplier: *r.pick(&[0u128, 1, 2, 100, 127, 128, 255, 256, 65536, 1_000_000, 1 << 40]),
         // small speeds make rewards non-zero at the small difficulties proofs can be generated for
         dosc_speed: if r.chance(1, 2) { 1 + r.below(40) as u128 } else { 1_000_000 + r.below(100) as u128 },
         coins,
@@ -873,7 +903,7 @@ pub fn rand_genesis(r: &mut Rng, wallet: &mut Wallet) -> GenesisConfig {
         let k = r.below(nk) as usize;
         stakes.insert(
             TxHash(tmelcrypt::hash_keyed(b"genstake", [i as u8])),
-            StakeDoc { pubkey: wallet.keys[k].pk, e_start: 0, e_post_end: 1 + r.below(3), syms_staked: CoinValue(1 + r.below(100) as u128) },
+            StakeDoc { pubkey: wallet.keys[k].pk, e_start: 0, e_post_end: 1 + r.below(3), syms_staked: CoinValue(match r.below(8) { 0 => 0, 1 => 1 << 100, _ => 1 + r.below(100) as u128 }) },
         );
     }
     GenesisConfig {
@@ -885,9 +915,114 @@ pub fn rand_genesis(r: &mut Rng, wallet: &mut Wallet) -> GenesisConfig {
     }
 }
 
+/// A scripted history around the u128 ceiling of a pool's liquidity record: a lopsided first deposit (big, tiny)
+/// gives the pool `big` liquidity; a later deposit of (x, y) is then worth big * sqrt(x*y / (big*tiny)) tokens, which
+/// reaches or passes 2^128.  Three variants: the issue itself saturates, the sum just passes the ceiling, the sum
+/// just fits.
+fn script_liquidity_ceiling(h: &mut Hist, r: &mut Rng) {
+    let a0 = h.wallet.spec_addr(CovSpec::StdNew(0));
+    let network = *r.pick(&[NetID::Custom02, NetID::Custom03, NetID::Testnet]);
+    let cfg = GenesisConfig {
+        network,
+        init_coindata: crate::txgen::out(a0, 1u128 << 60, Denom::Mel),
+        stakes: BTreeMap::new(),
+        init_fee_pool: CoinValue(0),
+        init_fee_multiplier: 0,
+    };
+    let mut u = h.op_genesis(cfg);
+    let big: u128 = 1 << 120;
+    // the second deposit, per variant: (left, right)
+    let (x, y): (u128, u128) = match r.below(4) {
+        0 => (big, big),                                        // worth 2^180: the issue saturates
+        1 => ((1 << 68) - (1 << 59), (1 << 68) - (1 << 59)),    // worth 2^128 - 2^119: only the sum passes the ceiling
+        2 => (1 << 67, 1 << 67),                                // worth 2^127: the sum fits
+        _ => (1 + r.u128() % (1 << 70), 1 + r.u128() % (1 << 70)),
+    };
+    // a faucet mints both sides: MEL and a new token, each as [big, x-or-y, 1]
+    let f = Transaction {
+        kind: TxKind::Faucet,
+        inputs: vec![],
+        outputs: vec![
+            crate::txgen::out(a0, big, Denom::Mel), crate::txgen::out(a0, x.max(y), Denom::Mel), crate::txgen::out(a0, 1, Denom::Mel),
+            crate::txgen::out(a0, big, Denom::NewCustom), crate::txgen::out(a0, x.max(y), Denom::NewCustom), crate::txgen::out(a0, 1, Denom::NewCustom),
+        ],
+        fee: CoinValue(0),
+        covenants: vec![],
+        data: r.bytes(6).into(),
+        sigs: vec![],
+    };
+    h.w.names.reg_tx(&f);
+    let Some(u1) = h.op_batch(&u, &[f.clone()], "ceiling:faucet") else { return };
+    u = u1;
+    let tok = Denom::Custom(f.hash_nosigs());
+    let key = PoolKey::new(Denom::Mel, tok);
+    let height = h.parts(&u).height;
+    let coin = |i: u8, denom: Denom, v: u128| WCoin {
+        id: f.output_coinid(i),
+        cdh: CoinDataHeight { coin_data: crate::txgen::out(a0, v, denom), height },
+        spec: CovSpec::StdNew(0),
+    };
+    // index of the `big`, the second and the `1` coin of a denomination
+    let base = |d: Denom| if d == Denom::Mel { 0u8 } else { 3u8 };
+    let (l, rr) = (key.left(), key.right());
+    let seal_next = |h: &mut Hist, u: &str| -> Option<String> {
+        let s = h.op_seal(u, None)?;
+        h.op_next(&s)
+    };
+    let Some(u2) = seal_next(h, &u) else { return };
+    u = u2;
+    // first deposit: (big, 1)
+    let ins1 = vec![coin(base(l), l, big), coin(base(rr) + 2, rr, 1)];
+    let d1 = assemble(&h.wallet, TxKind::LiqDeposit, &ins1, vec![crate::txgen::out(a0, big, l), crate::txgen::out(a0, 1, rr)], 0, key.to_bytes().to_vec());
+    h.w.names.reg_tx(&d1);
+    h.w.names.reg_poolkey(key);
+    let Some(u3) = h.op_batch(&u, &[d1.clone()], "ceiling:first-deposit") else { return };
+    let Some(u4) = seal_next(h, &u3) else { return };
+    u = u4;
+    // second deposit: (x, y) out of the second coins (their values are max(x, y): the rest is change)
+    let m = x.max(y);
+    let ins2 = vec![coin(base(l) + 1, l, m), coin(base(rr) + 1, rr, m)];
+    let mut outs2 = vec![crate::txgen::out(a0, x, l), crate::txgen::out(a0, y, rr)];
+    if m > x {
+        outs2.push(crate::txgen::out(a0, m - x, l));
+    }
+    if m > y {
+        outs2.push(crate::txgen::out(a0, m - y, rr));
+    }
+    let d2 = assemble(&h.wallet, TxKind::LiqDeposit, &ins2, outs2, 0, key.to_bytes().to_vec());
+    h.w.names.reg_tx(&d2);
+    let Some(u5) = h.op_batch(&u, &[d2.clone()], "ceiling:second-deposit") else { return };
+    let Some(u6) = seal_next(h, &u5) else { return };
+    // and everybody tries to get out again
+    let cm = CoinMapping::new(h.parts(&u6).coins.clone());
+    let liq = key.liq_token_denom();
+    let mut wds = vec![];
+    for (d, feeidx) in [(&d1, base(Denom::Mel) + 2), (&d2, 99u8)] {
+        if let Some(c) = cm.get_coin(d.output_coinid(0)) {
+            if c.coin_data.denom == liq && feeidx != 99 {
+                let ins = vec![WCoin { id: d.output_coinid(0), cdh: c.clone(), spec: CovSpec::StdNew(0) }];
+                let wd = assemble(&h.wallet, TxKind::LiqWithdraw, &ins, vec![crate::txgen::out(a0, c.coin_data.value.0, liq)], 0, key.to_bytes().to_vec());
+                h.w.names.reg_tx(&wd);
+                wds.push(wd);
+            }
+        }
+    }
+    if !wds.is_empty() {
+        if let Some(u7) = h.op_batch(&u6, &wds, "ceiling:withdraw") {
+            let _ = seal_next(h, &u7);
+        }
+    }
+    h.bump("history:liquidity-ceiling-script");
+}
+
 /// one history
 pub fn history(r: &mut Rng, w: &mut World, out: &mut Out, em: &Emphasis, stats: &mut BTreeMap<String, u64>) {
     let mut h = Hist { w, wallet: Wallet::new(), out, stats: BTreeMap::new(), faucets_seen: vec![] };
+    if em.pool_ops >= 10 && r.chance(1, 16) {
+        script_liquidity_ceiling(&mut h, r);
+        merge(stats, &h.stats);
+        return;
+    }
     // starting point
     let mut unsealed: String;
     let mut parent: Option<String> = None;
@@ -909,20 +1044,31 @@ pub fn history(r: &mut Rng, w: &mut World, out: &mut Out, em: &Emphasis, stats: 
             }
         }
     }
+    // the open block of a sibling fork (the previous block sealed with a different proposer action): the batches of
+    // the main lineage's next block are replayed on it — same transactions, a different past
+    let mut sibling: Option<String> = None;
     for _b in 0..em.blocks {
         let nb = 1 + r.below(3 + em.batches);
         for _ in 0..nb {
             let (txs, label) = h.gen_batch(r, &unsealed, em);
             if let Some(next) = h.op_batch(&unsealed, &txs, &label) {
                 unsealed = next;
+                if let Some(sib) = sibling.clone() {
+                    if let Some(n2) = h.op_batch(&sib, &txs, &format!("{}/on-sibling-fork", label)) {
+                        sibling = Some(n2);
+                    }
+                }
             }
         }
+        sibling = None;
         let height = h.parts(&unsealed).height.0;
         let action = rand_action(r, &mut h.wallet, height);
         // sealing the same state both ways is informative for tips/rewards
         if r.chance(1, 5) {
             let other = if action.is_some() { None } else { rand_action(r, &mut h.wallet, height) };
-            let _ = h.op_seal(&unsealed, other);
+            if let Some(alt) = h.op_seal(&unsealed, other) {
+                sibling = h.op_next(&alt);
+            }
         }
         let Some(sealed) = h.op_seal(&unsealed, action) else { break };
         if em.chain_ops {
